@@ -97,10 +97,10 @@ def _summary(c):
             c.playback.original_recording.id if c.playback is not None else None, c.expected, c.actual)
 
 
-def run_world(ids, behs, life, delays, lags, rate, keep, consume=None):
+def run_world(ids, behs, life, delays, lags, rate, keep, consume=None, child_first=False, kill_fails=False):
     """drive the real Equalizer in the model world; returns (comparisons, world, eq, elapsed ticks per comparison)"""
     from playback.studio.equalizer import CompareExecutionConfig
-    world = mpm.World([(life[i], delays[i]) for i in range(len(ids))], lags)
+    world = mpm.World([(life[i], delays[i]) for i in range(len(ids))], lags, child_first, kill_fails)
     holder = {}
     mpm.install(world, holder)
     cfg = CompareExecutionConfig(keep_results_in_comparison=keep, compare_in_dedicated_process=True,
@@ -127,6 +127,8 @@ def run_world(ids, behs, life, delays, lags, rate, keep, consume=None):
     except Boom as ex:
         error = ex
         gen.close()
+    except mpm.WouldHang as ex:
+        world.hung = str(ex)
     return out, world, eq, spans, journal
 
 
@@ -182,7 +184,7 @@ def scenario(b0, b1, b2, l0, l1, l2, d0, d1, d2, lag0, lag1, rate, n):
 
 
 def attribution(b0: int, b1: int, b2: int, l0: int, l1: int, l2: int, d0: int, d1: int, d2: int,
-                lag0: int, lag1: int, rate: int, keep: bool, n: int) -> bool:
+                lag0: int, lag1: int, rate: int, keep: bool, n: int, child_first: bool) -> bool:
     """
     pre: _b_ok(b0, b1, b2) and _l_ok(l0, l1, l2)
     pre: all(_d_ok(d) for d in (d0, d1, d2)) and 0 <= lag0 <= B('LAG') and 0 <= lag1 <= B('LAG')
@@ -197,12 +199,13 @@ def attribution(b0: int, b1: int, b2: int, l0: int, l1: int, l2: int, d0: int, d
     lag0, lag1 = lags
     n = len(ids)
     keep = True if keep else False
+    child_first = True if child_first else False
     if ctx.BOUNDS.get('DELAYS') is not None:
         with ctx.untraced():            # every solver variable was turned into a constant above: plain Python speed
-            out, world, eq, spans, journal = run_world(ids, behs, life, delays, [lag0, lag1], rate, keep)
+            out, world, eq, spans, journal = run_world(ids, behs, life, delays, [lag0, lag1], rate, keep, None, child_first)
     else:
-        out, world, eq, spans, journal = run_world(ids, behs, life, delays, [lag0, lag1], rate, keep)
-    ok = [c.recording_id for c in out] == ids
+        out, world, eq, spans, journal = run_world(ids, behs, life, delays, [lag0, lag1], rate, keep, None, child_first)
+    ok = [c.recording_id for c in out] == ids and not getattr(world, 'hung', None)
     limit_ticks = TIMEOUT_S * mpm.TPS
     slack = lag0 + lag1
     for i, c in enumerate(out):
